@@ -31,7 +31,7 @@ run_demo() {
     grep -E "^test |test result|panicked" /tmp/confirm_demo.out | head -30
     return $rc
   elif [ -f $SRC/demo.sh ]; then
-    (cd $WT && cargo build --offline -q 2>&1 | tail -3; ARG=$WT; grep -q 'BIN=${1' $SRC/demo.sh && ARG=$WT/target/debug/pumpkin-solver; cd $SRC && WT=$WT timeout 900 bash ./demo.sh $ARG > /tmp/confirm_demo.out 2>&1); rc=$?
+    (cd $WT && cargo build --offline -q 2>&1 | tail -3; ARG=$WT; grep -qE 'BIN="?[$][{]1' $SRC/demo.sh && ARG=$WT/target/debug/pumpkin-solver; cd $SRC && WT=$WT timeout 900 bash ./demo.sh $ARG > /tmp/confirm_demo.out 2>&1); rc=$?
     tail -15 /tmp/confirm_demo.out
     return $rc
   fi
